@@ -230,4 +230,154 @@ Section Nav.
     - eexists _, _. split; [reflexivity|]. split; [exact HI2|]. split; [exact X12|].
       unfold fetch_post. exists child. auto.
   Qed.
+
+  (* ---------------------------------------------------------------- one resumption / draining, by induction
+     over the tree *)
+  Definition at_pos (s : state) (u : Z) (die : nat) (n : node) (cf : cframe) (post : list node) : Prop :=
+    (cf = CStart die /\ post = node_kids n) \/
+    (exists child k pre, cf = CYield die child (node_off k) /\ node_kids n = pre ++ k :: post /\
+                         die_at s child u (node_off k)).
+
+  Definition next_post (s' : state) (u : Z) (die : nat) (n : node) (post : list node) (r : cframe * option nat) : Prop :=
+    match post with
+    | k' :: _ => exists child', r = (CYield die child' (node_off k'), Some child') /\
+                                die_at s' child' u (node_off k') /\ parent_set s' child'
+    | [] => r = (CDone, None) /\ term_at s' die u (node_toff n)
+    end.
+
+  Section OneUnit.
+    Variables (u : Z) (ud : udesc).
+    Hypothesis Hu : unit_at F u = Some ud.
+    Hypothesis Hw : wf_unit F ud = true.
+
+    Lemma fetch_at s die par n x post : Inv F s -> die_at s die u (node_off n) ->
+      In (par, n) (subnodes None (ud_tree ud)) -> dr_hc (node_raw n) = true ->
+      chain x post (node_toff n) = true -> (forall k, In k post -> In k (node_kids n)) ->
+      exists s' r, children_fetch P die x s = (s', Ok r) /\ Inv F s' /\ ext s s' /\ next_post s' u die n post r.
+    Proof.
+      intros HI Hat Hn Hhc Hch Hsub. destruct post as [|k' post'].
+      - apply chain_nil in Hch. subst x.
+        destruct (children_fetch_ok s die u ud par n (node_toff n) true HI Hu Hw Hat Hn Hhc eq_refl)
+          as (s' & r & E & HI' & X & Hp). exists s', r. auto.
+      - apply chain_head in Hch. subst x.
+        destruct (children_fetch_ok s die u ud par n (node_off k') false HI Hu Hw Hat Hn Hhc)
+          as (s' & r & E & HI' & X & Hp).
+        { exists k'. split; [apply Hsub; cbn; auto|reflexivity]. }
+        exists s', r. auto.
+    Qed.
+
+    (* the contents of the object of a node's own entry *)
+    Lemma node_die_raw s die par n : Inv F s -> die_at s die u (node_off n) ->
+      In (par, n) (subnodes None (ud_tree ud)) ->
+      exists dd c, nth_error (dies s) die = Some dd /\ nth_error (cus s) (d_cu dd) = Some c /\ c_off c = u /\
+                   d_off dd = node_off n /\ d_raw dd = node_raw n.
+    Proof.
+      intros HI Hat Hn. destruct (die_facts F WF fuel Hfuel _ _ _ _ HI Hat) as (dd & c & e & Hd & Hc & Eu & Eo & He & Hr).
+      destruct (node_entries F WF ud par n Hw Hn) as (Hown & _).
+      rewrite (entry_of_unit _ _ _ _ Hu Hown) in He. inversion He. subst e.
+      exists dd, c. repeat split; auto.
+    Qed.
+
+    Definition next_stmt (n : node) : Prop := forall m s die cf post,
+      (bnext n <= m)%nat -> Inv F s -> die_at s die u (node_off n) -> at_pos s u die n cf post ->
+      exists s' r, children_next P m cf s = (s', Ok r) /\ Inv F s' /\ ext s s' /\ next_post s' u die n post r.
+
+    Definition drain_stmt (n : node) : Prop := forall post m s die cf acc,
+      (length post + 1 + bnext n <= m)%nat -> Inv F s -> die_at s die u (node_off n) -> at_pos s u die n cf post ->
+      exists s' ids, children_drain P m cf acc s = (s', Ok (rev acc ++ ids)) /\ Inv F s' /\ ext s s' /\
+        Forall2 (fun id k => die_at s' id u (node_off k) /\ parent_set s' id) ids post /\
+        term_at s' die u (node_toff n).
+
+    Lemma drain_of_next n : next_stmt n -> drain_stmt n.
+    Proof.
+      intros HA post. induction post as [|k' post' IH]; intros m s die cf acc Hm HI Hat Hpos.
+      - destruct m as [|m']; [cbn in Hm; lia|]. cbn [children_drain].
+        destruct (HA m' s die cf [] ltac:(cbn in Hm; lia) HI Hat Hpos) as (s1 & r & E1 & HI1 & X1 & Hp).
+        rewrite (bind_ok _ _ _ _ _ E1). cbn [next_post] in Hp. destruct Hp as [-> Ht].
+        exists s1, []. rewrite app_nil_r. split; [reflexivity|]. split; [exact HI1|]. split; [exact X1|].
+        split; [constructor|exact Ht].
+      - destruct m as [|m']; [cbn in Hm; lia|]. cbn [children_drain].
+        destruct (HA m' s die cf (k' :: post') ltac:(cbn [length] in Hm; lia) HI Hat Hpos) as (s1 & r & E1 & HI1 & X1 & Hp).
+        rewrite (bind_ok _ _ _ _ _ E1). cbn [next_post] in Hp. destruct Hp as (child' & -> & Hc' & Hps').
+        assert (Hpos1 : at_pos s1 u die n (CYield die child' (node_off k')) post').
+        { right. destruct Hpos as [[_ Ek]|(ch & k & pre & _ & Ek & _)].
+          - exists child', k', []. repeat split; auto.
+          - exists child', k', (pre ++ [k]). rewrite <- app_assoc. repeat split; auto. }
+        destruct (IH m' s1 die _ (child' :: acc) ltac:(cbn [length] in Hm; lia) HI1 (die_at_ext _ _ _ _ _ X1 Hat) Hpos1)
+          as (s2 & ids & E2 & HI2 & X2 & Hall & Ht).
+        exists s2, (child' :: ids). rewrite E2. cbn [rev]. rewrite <- app_assoc. cbn [app].
+        split; [reflexivity|]. split; [exact HI2|]. split; [eapply ext_trans; eauto|].
+        split; [|exact Ht]. constructor; [|exact Hall].
+        split; [eapply die_at_ext; eauto|eapply parent_set_ext; eauto].
+    Qed.
+
+    Lemma nav_node n : forall par, In (par, n) (subnodes None (ud_tree ud)) -> dr_hc (node_raw n) = true ->
+      next_stmt n /\ drain_stmt n.
+    Proof.
+      induction n as [off raw kids toff traw IH] using node_ind'. intros par Hn Hhc.
+      set (n := Node off raw kids toff traw) in *.
+      assert (HA : next_stmt n); [|split; [exact HA|apply drain_of_next; exact HA]].
+      intros m s die cf post Hm HI Hat Hpos.
+      destruct m as [|m']; [unfold bnext in Hm; lia|].
+      destruct (node_hc_facts F WF ud par n Hw Hn Hhc) as (Hchain & Htnull & Htsz & Hkpos & Hend).
+      destruct (node_die_raw s die par n HI Hat Hn) as (dd & c & Hd & Hc & Ecu & Eoff & Eraw).
+      destruct Hpos as [[-> ->]|(child & k & pre & -> & Ekids & Hchild)].
+      - (* first resumption *)
+        cbn [children_next]. rewrite (bind_get_die _ _ _ _ Hd). rewrite Eraw.
+        rewrite Hhc. cbn [negb].
+        rewrite Eoff. apply (fetch_at s die par n _ (node_kids n) HI Hat Hn Hhc Hchain). auto.
+      - (* resumption after the child k *)
+        assert (Hk : In k (node_kids n)) by (rewrite Ekids; apply in_or_app; right; cbn; auto).
+        pose proof (subnodes_kid _ _ _ _ _ Hn Hk) as Hnk.
+        destruct (node_die_raw s child _ k HI Hchild Hnk) as (dch & cch & Hdch & Hcch & Ecuch & Eoffch & Erawch).
+        pose proof (chain_after _ _ _ _ _ (eq_ind _ (fun l => chain _ l _ = true) Hchain _ Ekids)) as Hafter.
+        assert (Hsub : forall x, In x post -> In x (node_kids n)).
+        { intros x Hx. rewrite Ekids. apply in_or_app. right. cbn. auto. }
+        assert (Hgoal : forall s1, Inv F s1 -> ext s s1 ->
+                  exists s' r, children_fetch P die (node_end k) s1 = (s', Ok r) /\ Inv F s' /\ ext s s' /\
+                               next_post s' u die n post r).
+        { intros s1 HI1 X1.
+          destruct (fetch_at s1 die par n _ post HI1 (die_at_ext _ _ _ _ _ X1 Hat) Hn Hhc Hafter Hsub)
+            as (s' & r & E & HI' & X' & Hp).
+          exists s', r. split; [exact E|]. split; [exact HI'|]. split; [eapply ext_trans; eauto|exact Hp]. }
+        destruct (node_entries F WF ud _ k Hw Hnk) as (Hownk & Htermk & Hwk).
+        cbn [children_next]. rewrite (bind_get_die _ _ _ _ Hdch). rewrite Erawch.
+        destruct (dr_hc (node_raw k)) eqn:Ehk; cbn [negb].
+        + (* the child has children *)
+          assert (Hsib : sib_ok (ud_off ud) k = true).
+          { destruct k as [ko kraw kk kt ktr]. apply (wf_node_unfold _ _ _ _ _ _ Hwk). }
+          unfold sib_ok in Hsib. rewrite Ehk in Hsib. rewrite (unit_off _ _ Hu) in Hsib.
+          destruct (dr_sib (node_raw k)) as [[[| |] v]|] eqn:Esib; try discriminate.
+          * rewrite (bind_get_die _ _ _ _ Hd), (bind_get_cu _ _ _ _ Hc). rewrite Ecu.
+            replace (v + u) with (node_end k) by lia. apply Hgoal; auto using ext_refl.
+          * replace v with (node_end k) by lia. apply Hgoal; auto using ext_refl.
+          * (* no DW_AT_sibling: the child's terminator is needed *)
+            destruct (node_hc_facts F WF ud _ k Hw Hnk Ehk) as (_ & _ & _ & _ & Hendk).
+            assert (Hstep : exists s1, (match d_term dch with
+                                        | None => children_drain P m' (CStart child) [];;; ret tt
+                                        | Some _ => ret tt end) s = (s1, Ok tt) /\ Inv F s1 /\ ext s s1 /\
+                              exists dch1 t, nth_error (dies s1) child = Some dch1 /\ d_term dch1 = Some t).
+            { destruct (d_term dch) as [t|] eqn:Et.
+              - exists s. split; [reflexivity|]. split; [exact HI|]. split; [apply ext_refl|]. eauto.
+              - rewrite Forall_forall in IH. destruct (IH k Hk _ Hnk Ehk) as [_ HB].
+                destruct (HB (node_kids k) m' s child (CStart child) []) as (s1 & ids & E1 & HI1 & X1 & _ & Ht); auto.
+                + pose proof (nav_fuel_kid n k Hk). rewrite nav_fuel_unfold in H. lia.
+                + left. auto.
+                + exists s1. rewrite (bind_ok _ _ _ _ _ E1). split; [reflexivity|]. split; [exact HI1|]. split; [exact X1|].
+                  destruct Ht as (d1 & t & Hd1 & Et1 & _). eauto. }
+            destruct Hstep as (s1 & E1 & HI1 & X1 & dch1 & t & Hdch1 & Et1).
+            rewrite (bind_ok _ _ _ _ _ E1). rewrite (bind_get_die _ _ _ _ Hdch1). rewrite Et1.
+            destruct (term_facts s1 child u (node_off k) dch1 t HI1 (die_at_ext _ _ _ _ _ X1 Hchild) Hdch1 Et1)
+              as (e & td & et & He & Htd & Een & Het & Hrt & _).
+            rewrite (entry_of_unit _ _ _ _ Hu Hownk) in He. inversion He. subst e.
+            cbn [own_entry en_term] in Een. rewrite Ehk in Een. inversion Een as [Etoff].
+            rewrite <- Etoff in Het. rewrite (entry_of_unit _ _ _ _ Hu (Htermk eq_refl)) in Het. inversion Het. subst et.
+            rewrite (bind_get_die _ _ _ _ Htd). rewrite Hrt, <- Etoff. cbn [term_entry en_raw].
+            rewrite <- Hendk. apply Hgoal; auto.
+        + (* the child has no children *)
+          replace (node_off k + dr_size (node_raw k)) with (node_end k).
+          * apply Hgoal; auto using ext_refl.
+          * destruct k as [ko kraw kk kt ktr]. cbn [node_end node_raw node_off] in *. rewrite Ehk. reflexivity.
+    Qed.
+  End OneUnit.
 End Nav.
